@@ -228,18 +228,26 @@ class Vector():
 
 		if isinstance(x, set):
 			rep = _safe_sortable_list(list(x))
-			return Vector._hash_element(tuple(rep))
+			return Vector._hash_sequence(rep, 3)
 
 		if isinstance(x, (list, tuple)):
-			h = 0
-			for elem in x:
-				h = (h * B + Vector._hash_element(elem)) % P
-			return h
+			return Vector._hash_sequence(x, 1 if isinstance(x, list) else 2)
 
 		if _is_hashable(x):
 			return hash(x)
 
 		return hash(repr(x))
+
+	@staticmethod
+	def _hash_sequence(items, tag: int) -> int:
+		# Seeded with the container kind and its length, so that (0, 1) and (1,), [1, 2] and (1, 2),
+		# or an empty container and one holding only zeros do not share a hash.
+		P = Vector._FP_P
+		B = Vector._FP_B
+		h = (0x9E3779B1 * tag + len(items) + 1) % P
+		for elem in items:
+			h = (h * B + Vector._hash_element(elem)) % P
+		return h
 
 	def _ensure_fp_powers(self) -> None:
 		n = len(self._underlying)
